@@ -1079,7 +1079,7 @@ inline void runLevel(Ctx& C) {
     exit(3);
   }
   std::set<std::string> emitted;
-  uint64_t transitions = 0, forks = 0, skippedKnown = 0;
+  uint64_t transitions = 0, forks = 0, skippedKnown = 0, stateIndex = 0, replayed = 0;
   const bool noAlias = C.flag("no-alias");
   std::map<int, int> knownRuns;
   for (auto& st : F.states) {
@@ -1103,6 +1103,21 @@ inline void runLevel(Ctx& C) {
         }
       }
       W = W2;
+    }
+    // canon-on-replay: replaying the stored history must reproduce the stored canonical key
+    if (level > 1 && (stateIndex++ % uint64_t(C.nshards)) == uint64_t(C.shard)) {
+      World Wc;
+      Real Rc;
+      for (auto& o : h) {
+        Expect e = modelApply(Wc, o);
+        realApply(Rc, o);
+        if (e.resync) { Wc.M[0] = extract(Rc.D[0]->as<JsonVariantConst>()); Wc.M[1] = extract(Rc.D[1]->as<JsonVariantConst>()); }
+      }
+      if (hash128(worldModelKey(Wc) + concreteKey(Rc, nullptr)) != st.first) {
+        fprintf(stderr, "NONDETERMINISM: replay of a stored history does not reproduce its canonical key: %s\n", histText(h).c_str());
+        exit(2);
+      }
+      replayed++;
     }
     std::vector<Op> ops;
     enabledOps(W, AB, ops);
@@ -1148,6 +1163,7 @@ inline void runLevel(Ctx& C) {
   C.metrics["transitions"] += double(transitions);
   C.metrics["traces_validated_against_impl"] += double(transitions);
   C.metrics["forked_transitions"] += double(forks);
+  C.metrics["states_whose_key_was_reproduced_by_replay"] += double(replayed);
   C.metrics["transitions_skipped_as_known_finding"] += double(skippedKnown);
   if (C.shard == 0) {
     C.metrics["states"] += double(F.states.size());
